@@ -233,7 +233,8 @@ class Gen:
         c = r.random()
         if prec is not None and c < 0.45:
             # lengths around the precision: the interesting boundary
-            n = max(1, prec + r.choice([-3, -2, -1, 0, 1, 2, 3, 4, 5, 6, 7, prec, 2 * prec, 17]))
+            # (+299..302: the discarded part crosses the 300-bit boundary of libmpf's h_mask table)
+            n = max(1, prec + r.choice([-3, -2, -1, 0, 1, 2, 3, 4, 5, 6, 7, prec, 2 * prec, 17, 299, 300, 301, 302]))
         elif c < 0.75:
             n = r.randint(1, 80)
         elif c < 0.95:
@@ -266,7 +267,10 @@ class Gen:
             if r.random() < 0.3:
                 hi = (1 << prec) - 1        # carry out of the top bit when rounded up
             half = 1 << (n - 1)
-            lo = r.choice([0, 1, half - 1 if n > 1 else 0, half, half + 1 if n > 1 else half, (1 << n) - 1])
+            quarter = half >> 1
+            lo = r.choice([0, 1, half - 1 if n > 1 else 0, half, half + 1 if n > 1 else half, (1 << n) - 1,
+                           quarter, half + quarter, half + quarter - 1 if n > 2 else half, half + quarter + 1 if n > 2 else half,
+                           half | (1 << r.randrange(n))])
             shape, m = "tie-family", (hi << n) | (lo & ((1 << n) - 1))
         elif k < 0.90:
             # one followed by zeros then a low part
@@ -286,6 +290,18 @@ class Gen:
             shape = "runs"
         self.note("man_shape", shape)
         return m
+
+    def boundary_man(self, prec):
+        """rounding boundary, enumerated: n discarded bits (around 1, 64, the 300-bit boundary of libmpf's h_mask table, 1000), a
+        prec-bit kept part of either parity, discarded part exactly 0 / 1/4 / 1/2 / 3/4 ulp and one unit next to each"""
+        r = self.r
+        n = r.choice([1, 2, 3, 8, 64, 298, 299, 300, 301, 302, 1000])
+        hi = ((1 << (prec - 1)) | r.getrandbits(prec - 1)) if prec > 1 else 1
+        hi = (hi & ~1) | r.randint(0, 1)
+        h_, q_ = 1 << (n - 1), (1 << (n - 1)) >> 1
+        lo = r.choice([0, 1, q_ - 1, q_, q_ + 1, h_ - 1, h_, h_ + 1, h_ + q_ - 1, h_ + q_, h_ + q_ + 1, (1 << n) - 1]) % (1 << n)
+        self.note("man_shape", "rounding-boundary")
+        return (hi << n) | max(lo, 0)
 
     def exp(self, big=True):
         r = self.r
